@@ -85,7 +85,9 @@ theorem acquire_mview (s : St) (t c k : Nat) : (acquire s t c k).1.mview = s.mvi
   · rfl
 
 theorem save_mview (cfg : Cfg) (s : St) (t c k eid v sz : Nat) : (save cfg s t c k eid v sz).1.mview = s.mview := by
-  unfold save; split <;> rfl
+  unfold save; split
+  · rfl
+  · split <;> rfl
 
 theorem recover_mview (s : St) (t c k eid : Nat) : (recover s t c k eid).mview = s.mview := by
   unfold recover; split <;> rfl
